@@ -383,13 +383,25 @@ Definition strict_parse (s : list N) : option jvalue :=
 (* ================================================================== lemmas *)
 Arguments Nat.sub : simpl never.
 
-Definition below (n : N) : list N := map N.of_nat (seq 0 (N.to_nat n)).
+(* finite exhaustive check lifted to a universally quantified statement *)
+Fixpoint below_aux (fuel : nat) (i : N) : list N :=
+  match fuel with
+  | O => []
+  | S f => i :: below_aux f (N.succ i)
+  end.
+Definition below (n : N) : list N := below_aux (N.to_nat n) 0.
+
+Lemma below_aux_in f : forall i x, i <= x < i + N.of_nat f -> In x (below_aux f i).
+Proof.
+  induction f as [|f IH]; intros i x H; [lia|]. cbn [below_aux].
+  destruct (N.eq_dec i x) as [->|Hne]; [left; reflexivity|]. right. apply IH. lia.
+Qed.
+
 Lemma forall_below (P : N -> bool) n :
   forallb P (below n) = true -> forall x, x < n -> P x = true.
 Proof.
   intros H x Hx. rewrite forallb_forall in H. apply H.
-  unfold below. apply in_map_iff. exists (N.to_nat x). split; [lia|].
-  apply in_seq. lia.
+  unfold below. apply below_aux_in. lia.
 Qed.
 
 Lemma utf8_len_range s n : utf8_len s = Some n -> (1 <= n <= 4)%nat /\ (n <= length s)%nat.
